@@ -1,6 +1,6 @@
 /-
-The read accessors `has_edge` / `edge_labels` / `edge_label` write to a `defaultdict`: on an
-existing edge they change nothing, on a non-edge they leave an empty entry behind.
+The read accessors `has_edge` / `edge_labels` / `edge_label` (as repaired: they read with `.get` and
+no longer write to the `defaultdict` behind the outgoing view).
 -/
 import GT.Lemmas.FSAViews
 
@@ -11,48 +11,30 @@ namespace GT.FSA
 variable {V L : Type} [DecidableEq V] [DecidableEq L]
 open Dict
 
-/-- asked about an existing entry, the query returns its labels and leaves the automaton alone -/
-theorem edgeLabels_of_entry {s : FSA V L} {t h : V} {ls : List L} (hog : s.og t h = some ls) :
-    s.edgeLabels t h = .ok (s, ls) := by
-  rw [og_def] at hog
-  cases hrow : s.out.get? t with
-  | none => simp [hrow] at hog
-  | some row =>
-    simp only [hrow, Option.bind_some] at hog
-    simp [edgeLabels, Dict.get, hrow, hog, bind, Except.bind, pure, Except.pure]
-
-theorem hasEdge_of_edge {s : FSA V L} (hs : s.WF) {t h : V} {l : L} (hst : s.step t l = some h) :
-    s.hasEdge t h = .ok (s, true) := by
-  obtain ⟨ls, hls, hl⟩ := (hs.1.label t l h).1 hst
-  have : 0 < ls.length := List.length_pos_of_mem hl
-  simp [hasEdge, edgeLabels_of_entry hls, bind, Except.bind, pure, Except.pure, this]
-
-/-- asked about a pair of vertices that is not an edge, the query answers "no labels" but inserts
-an empty entry into the outgoing view: the edge listings of the three views are unchanged, yet the
-automaton is no longer free of empty entries -/
-theorem edgeLabels_of_nonEdge {s : FSA V L} (hs : s.WF) {t h : V} (ht : t ∈ s.out.keys)
-    (hno : ∀ l, s.step t l ≠ some h) :
-    ∃ s', s.edgeLabels t h = .ok (s', []) ∧ s'.graph = s.graph ∧ s'.inn = s.inn ∧
-      (∀ a b, s'.og a b = if a = t ∧ b = h then some [] else s.og a b) ∧ ¬ s'.NoEmpty := by
+/-- `edge_labels(t, h)` on a vertex `t` returns exactly the labels of the edges `t → h` -/
+theorem edgeLabels_spec {s : FSA V L} (hs : s.Coherent) {t : V} (ht : t ∈ s.out.keys) (h : V) :
+    ∃ ls, s.edgeLabels t h = .ok ls ∧ ls.Nodup ∧ ∀ l, l ∈ ls ↔ s.step t l = some h := by
   obtain ⟨row, hrow⟩ := (mem_keys_iff _ _).1 ht
-  have hnone : row.get? h = none := by
+  refine ⟨(row.get? h).getD [], by simp [edgeLabels, Dict.get, hrow, bind, Except.bind, pure, Except.pure], ?_, ?_⟩
+  · cases hg : row.get? h with
+    | none => simp
+    | some ls => simpa using hs.nodup t h ls (by rw [og_def, hrow]; exact hg)
+  · intro l
+    rw [hs.label t l h, og_def, hrow]
     cases hg : row.get? h with
-    | none => rfl
-    | some ls =>
-      have hog : s.og t h = some ls := by rw [og_def, hrow]; exact hg
-      obtain ⟨l, hl⟩ := List.exists_mem_of_ne_nil ls (hs.2 t h ls hog)
-      exact absurd ((hs.1.label t l h).2 ⟨ls, hog, hl⟩) (hno l)
-  have hog' : ∀ a b, FSA.og { s with out := s.out.set t (row.set h []) } a b =
-      if a = t ∧ b = h then some [] else s.og a b := by
-    intro a b
-    simp only [og_def, get?_set]
-    by_cases ha : a = t
-    · subst ha
-      simp only [if_true, Option.bind_some, get?_set, hrow, true_and]
-    · simp [ha]
-  refine ⟨{ s with out := s.out.set t (row.set h []) }, ?_, rfl, rfl, hog', ?_⟩
-  · simp [edgeLabels, Dict.get, hrow, hnone, bind, Except.bind, pure, Except.pure]
-  · intro hne
-    exact hne t h [] (by rw [hog']; simp) rfl
+    | none => simp [hg]
+    | some x => simp [hg]
+
+theorem hasEdge_spec {s : FSA V L} (hs : s.WF) {t : V} (ht : t ∈ s.out.keys) (h : V) :
+    ∃ b, s.hasEdge t h = .ok b ∧ (b = true ↔ ∃ l, s.step t l = some h) := by
+  obtain ⟨ls, e, -, hl⟩ := edgeLabels_spec hs.1 ht h
+  refine ⟨decide (ls.length > 0), by simp [hasEdge, e, bind, Except.bind, pure, Except.pure], ?_⟩
+  simp only [decide_eq_true_eq]
+  constructor
+  · intro hp
+    obtain ⟨l, hm⟩ := List.exists_mem_of_length_pos hp
+    exact ⟨l, (hl l).1 hm⟩
+  · rintro ⟨l, hst⟩
+    exact List.length_pos_of_mem ((hl l).2 hst)
 
 end GT.FSA
